@@ -55,6 +55,7 @@ from mashumaro.core.meta.helpers import (
     is_named_tuple,
     is_nullable,
     is_type_var_any,
+    plain_str,
     resolve_type_params,
     substitute_type_params,
     type_name,
@@ -1304,7 +1305,7 @@ class CodeBuilder:
                     alias = ann.name
         if alias is None:
             alias = config.aliases.get(fname)
-        return alias
+        return plain_str(alias)
 
     @typing.no_type_check
     def iter_serialization_strategies(
